@@ -524,8 +524,11 @@ class SAMIWriter(BaseWriter):
         return sami
 
     def _recreate_p_lang(self, caption, lang, captions):
+        # the caption's own class is kept only if it declares the language the
+        # caption is being written under; otherwise the paragraph would be
+        # read back under the class's language
         try:
-            if 'lang' in captions.get_style(caption.style['class']):
+            if captions.get_style(caption.style['class']).get('lang') == lang:
                 return caption.style['class']
         except KeyError:
             pass
